@@ -1,244 +1,31 @@
 #!/usr/bin/env python3
-"""Kernel translator: Python ast -> Coq, fail-closed.
+"""Kernel translator driver: Python ast -> Coq, fail-closed.
 
 usage: kernel_translate.py <Group> <repo> <out.v>
 
-Regenerates Gallina definitions of selected arithmetic / decision kernels of rex from the *current* source.  Every
-construct outside the small grammar below raises Unsupported and the translation fails (a failed translation counts as
-a broken tie in the check).  coq/Ties/<Group>Tie.v proves the generated definitions equal to the hand-written model.
-
-Grammar: names and attribute chains listed in the kernel's environment, int/float literals (floats must be small
-dyadic-or-decimal rationals), + - * /, unary minus, comparisons, and/or/not, conditional expressions, max/min/abs,
-jnp.maximum/minimum/clip/where/exp/log/tanh/sqrt/round-free calls, straight-line assignments, if/else whose branches
-assign the same names.
+Each kernel group lives in tools/kt_<name>.py and exposes GROUP (the name) and translate(repo) -> Coq source text.
+Any construct outside the grammar of ktlib.Expr, or any change of the expected statement shape, raises
+ktlib.Unsupported: the translation fails and the check reports the tie as broken (fail-closed).
 """
-import ast, sys
-from fractions import Fraction
+import glob, importlib, os, sys
+sys.path.insert(0, os.path.dirname(os.path.abspath(__file__)))
+import ktlib
 
-
-class Unsupported(Exception):
-    pass
-
-
-def parse(path):
-    return ast.parse(open(path).read())
-
-
-def find_class(tree, cls):
-    for n in ast.walk(tree):
-        if isinstance(n, ast.ClassDef) and n.name == cls:
-            return n
-    raise Unsupported(f"class {cls} not found")
-
-
-def find_func(tree, cls, name):
-    if cls is None:
-        for n in tree.body:
-            if isinstance(n, ast.FunctionDef) and n.name == name:
-                return n
-        raise Unsupported(f"function {name} not found")
-    c = find_class(tree, cls)
-    for f in c.body:
-        if isinstance(f, ast.FunctionDef) and f.name == name:
-            return f
-    raise Unsupported(f"{cls}.{name} not found")
-
-
-def lambdas_in(node):
-    return [n for n in ast.walk(node) if isinstance(n, ast.Lambda)]
-
-
-def body_wo_doc(f):
-    b = f.body
-    if b and isinstance(b[0], ast.Expr) and isinstance(b[0].value, ast.Constant) and isinstance(b[0].value.value, str):
-        b = b[1:]
-    return b
-
-
-class Expr:
-    """carrier: 'O' (generic ops record O : ops A), 'R', 'Z', 'Q'"""
-
-    def __init__(self, env, carrier="O", benv=None, round6_identity=False):
-        self.env = dict(env); self.carrier = carrier; self.benv = dict(benv or {}); self.round6_identity = round6_identity
-
-    def lit(self, v):
-        if isinstance(v, bool): raise Unsupported("bool literal in arithmetic")
-        q = None
-        if isinstance(v, int): q = Fraction(v)
-        elif isinstance(v, float):
-            q = Fraction(str(v))
-            if q.denominator > 10 ** 9: raise Unsupported(f"literal {v!r}")
-        else: raise Unsupported(f"literal {v!r}")
-        c = self.carrier
-        if q.denominator == 1:
-            n = q.numerator
-            return {"O": f"(oz O ({n}))", "R": f"({n})%R", "Z": f"({n})%Z", "Q": f"({n} # 1)%Q"}[c]
-        if c == "O": return f"(odiv O (oz O ({q.numerator})) (oz O ({q.denominator})))"
-        if c == "R": return f"({q.numerator} / {q.denominator})%R"
-        if c == "Q": return f"({q.numerator} # {q.denominator})%Q"
-        raise Unsupported(f"non-integer literal {v!r} over Z")
-
-    def name(self, n):
-        key = n.id if isinstance(n, ast.Name) else ast.unparse(n)
-        if key not in self.env: raise Unsupported(f"unknown name {key}")
-        return self.env[key]
-
-    def bin(self, op, a, b):
-        c = self.carrier
-        if c == "O":
-            f = {"+": "oadd", "-": "osub", "*": "omul", "/": "odiv", "max": "omax", "min": "omin"}[op]
-            return f"({f} O {a} {b})"
-        if op in ("max", "min"):
-            f = {"R": {"max": "Rmax", "min": "Rmin"}, "Z": {"max": "Z.max", "min": "Z.min"}, "Q": {"max": "Qmax", "min": "Qmin"}}[c][op]
-            return f"({f} {a} {b})"
-        if c == "Z" and op == "/": raise Unsupported("division over Z")
-        return f"({a} {op} {b})%{c}"
-
-    def tr(self, n):
-        if isinstance(n, ast.Constant): return self.lit(n.value)
-        if isinstance(n, (ast.Name, ast.Attribute)): return self.name(n)
-        if isinstance(n, ast.UnaryOp) and isinstance(n.op, ast.USub):
-            a = self.tr(n.operand)
-            return f"(oopp O {a})" if self.carrier == "O" else f"(- {a})%{self.carrier}"
-        if isinstance(n, ast.BinOp):
-            op = {ast.Add: "+", ast.Sub: "-", ast.Mult: "*", ast.Div: "/"}.get(type(n.op))
-            if op is None: raise Unsupported("operator " + ast.dump(n.op))
-            return self.bin(op, self.tr(n.left), self.tr(n.right))
-        if isinstance(n, ast.IfExp):
-            return f"(if {self.trb(n.test)} then {self.tr(n.body)} else {self.tr(n.orelse)})"
-        if isinstance(n, ast.Call):
-            fn = ast.unparse(n.func)
-            if n.keywords: raise Unsupported(f"keyword arguments in call {fn}")
-            if fn == "round" and self.round6_identity and len(n.args) == 2 and isinstance(n.args[1], ast.Constant) \
-                    and n.args[1].value == 6:
-                # round(x, 6) is the identity on the 1/64 s lattice (DESIGN 1.1); any other rounding is refused
-                return self.tr(n.args[0])
-            args = [self.tr(a) for a in n.args]
-            if fn in ("max", "min", "jnp.maximum", "jnp.minimum", "onp.maximum", "onp.minimum") and len(args) >= 2:
-                op = "max" if "max" in fn else "min"
-                out = args[0]
-                for a in args[1:]: out = self.bin(op, out, a)
-                return out
-            if fn in ("jnp.clip", "onp.clip") and len(args) == 3:
-                return self.bin("min", self.bin("max", args[0], args[1]), args[2])
-            if self.carrier == "R":
-                one = {"jnp.exp": "exp", "jnp.log": "ln", "jnp.tanh": "tanh", "jnp.sqrt": "sqrt", "jnp.arctanh": "atanh"}
-                if fn in one and len(args) == 1: return f"({one[fn]} {args[0]})"
-            if fn in self.env and callable(self.env[fn]): return self.env[fn](*args)
-            raise Unsupported(f"call {fn}")
-        raise Unsupported(ast.dump(n)[:200])
-
-    def trb(self, n):
-        key = ast.unparse(n)
-        if key in self.benv: return self.benv[key]
-        if isinstance(n, ast.BoolOp):
-            op = "&&" if isinstance(n.op, ast.And) else "||"
-            return "(" + f" {op} ".join(self.trb(v) for v in n.values) + ")"
-        if isinstance(n, ast.UnaryOp) and isinstance(n.op, ast.Not): return f"(negb {self.trb(n.operand)})"
-        if isinstance(n, ast.Compare) and len(n.ops) == 1:
-            a, b = self.tr(n.left), self.tr(n.comparators[0])
-            c = self.carrier
-            if c == "Z":
-                f = {ast.Lt: "Z.ltb", ast.LtE: "Z.leb", ast.Gt: "Z.gtb", ast.GtE: "Z.geb", ast.Eq: "Z.eqb"}.get(type(n.ops[0]))
-                if f: return f"({f} {a} {b})"
-        raise Unsupported("boolean " + key)
-
-
-def lam(l, name, carrier="O", rename=None):
-    args = [a.arg for a in l.args.args]
-    ren = {a: (rename or {}).get(a, a.strip("_") or "x") for a in args}
-    e = Expr(ren, carrier)
-    if carrier == "O":
-        return f"Definition {name} {{A}} (O : ops A) {' '.join('(%s : A)' % ren[a] for a in args)} : A :=\n  {e.tr(l.body)}.\n"
-    return f"Definition {name} {' '.join('(%s : %s)' % (ren[a], carrier) for a in args)} : {carrier} :=\n  {e.tr(l.body)}.\n"
-
-
-HEADER = "(* generated by tools/kernel_translate.py from the current source of /repo; do not edit *)\n" \
-         "From Coq Require Import Reals QArith Qminmax ZArith Bool List.\nFrom Rex Require Import Ops.\nImport ListNotations.\n\n"
-
-
-def loop_shape(f, method):
-    """`acc = params; for t in <iter>: acc = t.<method>(acc); return acc`  ->  'forward' | 'reverse'"""
-    b = body_wo_doc(f)
-    if len(b) != 3: raise Unsupported(f"{f.name}: expected init/loop/return")
-    init, loop, ret = b
-    if not (isinstance(init, ast.Assign) and isinstance(loop, ast.For) and isinstance(ret, ast.Return)): raise Unsupported(f.name)
-    acc = ast.unparse(init.targets[0])
-    if ast.unparse(init.value) != "params" or ast.unparse(ret.value) != acc: raise Unsupported(f"{f.name}: accumulator")
-    tv = ast.unparse(loop.target)
-    if len(loop.body) != 1 or loop.orelse: raise Unsupported(f"{f.name}: loop body")
-    st = loop.body[0]
-    if ast.unparse(st) != f"{acc} = {tv}.{method}({acc})": raise Unsupported(f"{f.name}: loop body is {ast.unparse(st)}")
-    it = ast.unparse(loop.iter)
-    if it == "self.transforms": return "forward"
-    if it == "self.transforms[::-1]": return "reverse"
-    raise Unsupported(f"{f.name}: iterates over {it}")
-
-
-def group_Transform(repo):
-    t = parse(f"{repo}/rex/base.py")
-    out = [HEADER, "From Rex Require Import Tree.\n"]
-    init = find_func(t, "Denormalize", "init"); ls = lambdas_in(init)
-    if len(ls) < 3: raise Unsupported("Denormalize.init: lambdas")
-    out.append(lam(ls[0], "denorm_offset_src", rename={"_min": "mn", "_max": "mx"}))
-    out.append(lam(ls[1], "denorm_scale_src", rename={"_min": "mn", "_max": "mx"}))
-    zf = ls[2]
-    if ast.unparse(zf.body) != "_scale == 0.0": raise Unsupported("Denormalize.init: zero filter")
-    ren = {"_params": "p", "_offset": "o", "_scale": "s"}
-    for nm in ("normalize", "denormalize"):
-        f = find_func(t, "Denormalize", nm)
-        l = lambdas_in(f)
-        if len(l) != 1: raise Unsupported(nm)
-        call = [n for n in ast.walk(f) if isinstance(n, ast.Call) and ast.unparse(n.func) == "jax.tree_util.tree_map"][0]
-        if [ast.unparse(a) for a in call.args[1:]] != ["params", "self.offset", "self.scale"]: raise Unsupported(nm + ": tree_map operands")
-        out.append(lam(l[0], nm + "_src", rename=ren))
-    for nm, tgt in (("apply", "denormalize"), ("inv", "normalize")):
-        f = find_func(t, "Denormalize", nm); b = body_wo_doc(f)
-        if len(b) != 1 or ast.unparse(b[0]) != f"return self.{tgt}(params)": raise Unsupported(f"Denormalize.{nm}")
-    # Chain
-    d1 = loop_shape(find_func(t, "Chain", "apply"), "apply"); d2 = loop_shape(find_func(t, "Chain", "inv"), "inv")
-    lst = {"forward": "ts", "reverse": "(rev ts)"}
-    out.append(f"Definition chain_apply_src {{A}} (ts : list (transform A)) (t : tree A) : tree A :=\n"
-               f"  fold_left (fun acc T => app T acc) {lst[d1]} t.\n")
-    out.append(f"Definition chain_inv_src {{A}} (ts : list (transform A)) (t : tree A) : tree A :=\n"
-               f"  fold_left (fun acc T => inv T acc) {lst[d2]} t.\n")
-    # Exponential
-    for nm in ("apply", "inv"):
-        f = find_func(t, "Exponential", nm); l = lambdas_in(f)
-        if len(l) != 1: raise Unsupported("Exponential." + nm)
-        out.append(lam(l[0], f"exponential_{nm}_src", carrier="R"))
-    # Identity
-    for nm in ("apply", "inv"):
-        b = body_wo_doc(find_func(t, "Identity", nm))
-        if len(b) != 1 or ast.unparse(b[0]) != "return params": raise Unsupported("Identity." + nm)
-    out.append("Definition identity_src {A} (t : tree A) : tree A := t.\n")
-    # Extend.extend pick lambda and Extend.apply
-    f = find_func(t, "Extend", "extend"); l = lambdas_in(f)
-    if len(l) != 1 or ast.unparse(l[0]) != "lambda base_x, ex_x: base_x if ex_x is None else ex_x": raise Unsupported("Extend.extend pick")
-    calls = [ast.unparse(n) for n in ast.walk(f) if isinstance(n, ast.Call)]
-    if "rjax.tree_extend(self.base_params, params)" not in calls: raise Unsupported("Extend.extend: tree_extend operands")
-    out.append("Definition extend_pick_src {A} (base_x : A) (ex_x : option A) : A :=\n  match ex_x with None => base_x | Some ex_x => ex_x end.\n")
-    b = body_wo_doc(find_func(t, "Extend", "apply"))
-    if len(b) != 1 or ast.unparse(b[0]) != "return self.extend(params)": raise Unsupported("Extend.apply")
-    # Shared: apply replaces at `where` by replace_fn(params); inv by inverse_fn(params)
-    for nm, fn in (("apply", "replace_fn"), ("inv", "inverse_fn")):
-        b = body_wo_doc(find_func(t, "Shared", nm))
-        if len(b) != 2 or ast.unparse(b[0]) != f"new = self.{fn}(params)" or \
-                ast.unparse(b[1]) != "return eqx.tree_at(self.where, params, new, is_leaf=lambda x: x is None)":
-            raise Unsupported("Shared." + nm)
-    out.append("Definition shared_apply_src {A} (w fr : list Z) (t : tree A) : tree A :=\n"
-               "  match get_at fr t with Some new => set_at w new t | None => t end.\n")
-    out.append("Definition shared_inv_src {A} (w : list Z) (t : tree A) : tree A := set_at w (Leaf None) t.\n")
-    return "\n".join(out)
-
-
-GROUPS = {"Transform": group_Transform}
+def groups():
+    out = {}
+    for p in sorted(glob.glob(os.path.join(os.path.dirname(os.path.abspath(__file__)), "kt_*.py"))):
+        m = importlib.import_module(os.path.basename(p)[:-3])
+        out[m.GROUP] = m.translate
+    return out
 
 if __name__ == "__main__":
     g, repo, outp = sys.argv[1], sys.argv[2], sys.argv[3]
     try:
-        src = GROUPS[g](repo)
-    except Unsupported as e:
+        src = groups()[g](repo)
+    except ktlib.Unsupported as e:
         print(f"kernel_translate: {g}: unsupported / changed source shape: {e}", file=sys.stderr)
+        sys.exit(2)
+    except (AssertionError, IndexError, KeyError, AttributeError) as e:
+        print(f"kernel_translate: {g}: source shape changed ({type(e).__name__}: {e})", file=sys.stderr)
         sys.exit(2)
     open(outp, "w").write(src)
